@@ -753,6 +753,10 @@ class SsbGraphMinimizer:
                     in_edges = v.in_edges()
                     out_edges = v.out_edges()
                     if len(in_edges) == 0:
+                        if v.index == 0 and len(out_edges) == 1 and out_edges[0].target != 1:
+                            # The routine is entered at this label and continues somewhere else than at the next
+                            # vertex (a jump after it was removed above): without it the entry would be lost.
+                            continue
                         vs_to_delete.add(v)
                     elif len(in_edges) == 1:
                         assert len(out_edges) == 1
